@@ -92,6 +92,12 @@ inductive AddOut where
   | ok | refused | stuck
 deriving DecidableEq, Repr
 
+/-- tail of `Add` common to both branches: the eviction loop, then the counters -/
+def addFinish (maxSize : Int) (l1 : Lru) (delta ud : Int) : Lru × AddOut :=
+  match evictLoop (fun cur => cur + delta > maxSize) l1.order l1 with
+  | .done l2 => ({ l2 with cur := l2.cur + delta, unc := l2.unc + ud }, .ok)
+  | .empty l2 => (l2, .stuck)   -- the Go loop would spin forever
+
 /-- `SizedLRU.Add` -/
 def add (l : Lru) (k : String) (v : Item) : Lru × AddOut :=
   let r := roundUp4k v.sizeOnDisk
@@ -102,24 +108,19 @@ def add (l : Lru) (k : String) (v : Item) : Lru × AddOut :=
       let delta := r - roundUp4k ee.val.sizeOnDisk
       if l.res + delta > l.maxSize then (l, .refused)
       else
-        let ud := roundUp4k v.size - roundUp4k ee.val.size
         -- MoveToFront, old value copied to the queue, value replaced in place
-        let l1 := { l with order := l.order.filter (fun e => !(e.key == k)) ++ [{ ee with val := v }]
-                           queue := l.queue ++ [(k, ee.val)]
-                           qsize := l.qsize + ee.val.sizeOnDisk }
-        match evictLoop (fun cur => cur + delta > l.maxSize) l1.order l1 with
-        | .done l2 => ({ l2 with cur := l2.cur + delta, unc := l2.unc + ud }, .ok)
-        | .empty l2 => (l2, .stuck)
+        addFinish l.maxSize
+          { l with order := l.order.filter (fun e => !(e.key == k)) ++ [{ ee with val := v }]
+                   queue := l.queue ++ [(k, ee.val)]
+                   qsize := l.qsize + ee.val.sizeOnDisk }
+          delta (roundUp4k v.size - roundUp4k ee.val.size)
     | none =>
-      let delta := r
-      if l.res + delta > l.maxSize then (l, .refused)
+      if l.res + r > l.maxSize then (l, .refused)
       else
-        let ud := roundUp4k v.size
-        let l1 := { l with order := l.order ++ [{ id := l.nextId, key := k, val := v }]
-                           nextId := l.nextId + 1 }
-        match evictLoop (fun cur => cur + delta > l.maxSize) l1.order l1 with
-        | .done l2 => ({ l2 with cur := l2.cur + delta, unc := l2.unc + ud }, .ok)
-        | .empty l2 => (l2, .stuck)
+        addFinish l.maxSize
+          { l with order := l.order ++ [{ id := l.nextId, key := k, val := v }]
+                   nextId := l.nextId + 1 }
+          r (roundUp4k v.size)
 
 /-- `SizedLRU.Get`: move to front, return value and element identity -/
 def get (l : Lru) (k : String) : Lru × Option Elem :=
